@@ -134,11 +134,11 @@ class Notes:
         return f"n{self.n}"
 
 
-def gen_audits_for(rng, name, in_graph_versions, crits, notes, local=True, p_violation=0.0):
-    """a list of audit entries for one crate"""
+def gen_audits_for(rng, name, in_graph_versions, crits, notes, local=True, p_violation=0.0, dense=False):
+    """a list of audit entries for one crate; dense = a web of deltas (diamonds, back edges)"""
     out = []
     universe = VERSIONS
-    n = rng.choice([0, 1, 1, 2, 3, 4])
+    n = rng.randint(5, 9) if dense else rng.choice([0, 1, 1, 2, 3, 4])
     for _ in range(n):
         r = rng.random()
         crit = crit_list(rng, crits)
@@ -160,6 +160,12 @@ def gen_audits_for(rng, name, in_graph_versions, crits, notes, local=True, p_vio
         req = rng.choice(["*", "=" + rng.choice(in_graph_versions or universe).split("@")[0], "<3.0.0", ">=2.0.0",
                           "=" + rng.choice(universe)])
         out.append({"kind": "violation", "violation": req, "criteria": crit_list(rng, crits), "notes": notes()})
+        # several violation entries for one crate: the same range with other criteria, or another range
+        r2 = rng.random()
+        if r2 < 0.35:
+            out.append({"kind": "violation", "violation": req, "criteria": crit_list(rng, crits), "notes": notes()})
+        elif r2 < 0.5:
+            out.append({"kind": "violation", "violation": rng.choice(["*", ">=1.0.0", "<9.0.0"]), "criteria": crit_list(rng, crits), "notes": notes()})
     rng.shuffle(out)
     return out
 
@@ -241,13 +247,14 @@ def gen_store(rng, pkgs, p_violation=0.05, with_imports=True, ncustom=None):
     for n in auditable + extra:
         vs = versions.get(n, [])
         plain = [v for v in vs]
-        if rng.random() < 0.75:
-            l = gen_audits_for(rng, n, plain, crits, notes, True, p_violation)
+        dense = rng.random() < 0.12
+        if dense or rng.random() < 0.75:
+            l = gen_audits_for(rng, n, plain, crits, notes, True, p_violation, dense=dense)
             if l:
                 store["audits"][n] = l
-        if rng.random() < 0.3:
+        if rng.random() < (0.8 if dense else 0.3):
             l = [{"version": rng.choice(plain + VERSIONS), "criteria": crit_list(rng, crits),
-                  "suggest": rng.random() > 0.15, "notes": notes()} for _ in range(rng.choice([1, 1, 2]))]
+                  "suggest": rng.random() > 0.15, "notes": notes()} for _ in range(rng.choice([1, 2, 3] if dense else [1, 1, 2]))]
             store["exemptions"][n] = l
         if rng.random() < 0.3:
             l = gen_wildcards(rng, crits, notes)
@@ -519,10 +526,48 @@ def gen_unlocked_case(rng, cid, p_violation=0.05, ncustom=None):
                 p["user-login"] = f"user{r['by']}"
                 p["user-name"] = f"User {r['by']}"
                 p["when"] = r["when"]
+    if rng.random() < 0.3:
+        boost_unpublished(rng, pkgs, store, reg, crits, notes)
     case = {"id": cid, "kind": "resolve", "graph": {"packages": pkgs}, "store_struct": store,
             "peers_struct": peers_struct, "registry": {"users": users, "packages": reg, "meta": {}},
             "mode": "unlocked", "allow_criteria_changes": True}
     return finalize(case)
+
+
+def boost_unpublished(rng, pkgs, store, reg, crits, notes):
+    """an audit-as-crates-io crate whose own version is not on crates.io, a STALE `unpublished`
+    record for it in imports.lock (audited as a version that is no longer the closest published
+    one), and an audit of the version it is audited as today"""
+    cands = [p for p in pkgs if p["source"] == "path" and not p["workspace"]]
+    if not cands:
+        return
+    p = rng.choice(cands)
+    same = [q for q in pkgs if q["name"] == p["name"]]
+    if len(same) > 1:
+        return
+    v = p["version"]
+    i = VERSIONS.index(v) if v in VERSIONS else None
+    if i is None:
+        return
+    below, above = VERSIONS[:i], VERSIONS[i + 1:]
+    if len(below) >= 2:
+        old, cur = sorted(rng.sample(below, 2), key=VERSIONS.index)
+        published = [old, cur]
+    elif len(above) >= 2:
+        cur, old = sorted(rng.sample(above, 2), key=VERSIONS.index)
+        published = [cur, old]
+    else:
+        return
+    store["policy"].setdefault(p["name"], {})["audit-as-crates-io"] = True
+    reg[p["name"]] = [{"version": x, "by": rng.choice([1, 2, 3]), "when": rng.choice(DATES[:6])} for x in sorted(published, key=VERSIONS.index)]
+    recs = [{"version": v, "audited_as": old}]
+    if rng.random() < 0.3:
+        recs.append({"version": v, "audited_as": cur})
+    store["lock"]["unpublished"][p["name"]] = sorted(recs, key=lambda r: VERSIONS.index(r["audited_as"]))
+    l = store["audits"].setdefault(p["name"], [])
+    l.append({"kind": "full", "version": cur, "criteria": ["safe-to-deploy"] + [c for c in crits if c not in BUILTINS], "notes": notes()})
+    if rng.random() < 0.4:
+        l.append({"kind": "full", "version": old, "criteria": crit_list(rng, crits), "notes": notes()})
 
 
 ALL_MODES = [
@@ -1173,3 +1218,22 @@ def gen_unpack_case(rng, cid):
         approx = 30 + sum(512 + (len(e.get("content", "")) + 511) // 512 * 512 for e in entries)
         case["truncate_at"] = rng.choice([rng.randint(1, approx), rng.randint(1, approx), (rng.randint(1, max(1, approx // 512))) * 512 + 10])
     return case
+
+
+# --------------------------------------------------------------------------
+# C18: concurrent users of one store / one cache directory
+
+def gen_lock_case(rng, cid):
+    n = rng.choice([2, 2, 3, 3, 4, 5, 6, 8])
+    users = []
+    burst = rng.random() < 0.6           # everybody starts within the same few hundred microseconds
+    for i in range(n):
+        role = rng.choice(["writer", "writer", "writer", "reader", "cache"])
+        users.append({"role": role,
+                      "start_us": rng.randrange(0, 300) if burst else rng.randrange(0, 4000),
+                      "think_us": rng.choice([0, 0, 50, 200, 800, 2000, 5000])})
+    if not any(u["role"] == "writer" for u in users):
+        users[0]["role"] = "writer"
+    if sum(u["role"] != "cache" for u in users) < 2:
+        users.append({"role": "writer", "start_us": rng.randrange(0, 300), "think_us": rng.choice([0, 200, 2000])})
+    return {"id": cid, "kind": "lock", "users": users, "padding": rng.choice([0, 0, 20, 100, 400])}
